@@ -83,7 +83,7 @@ def gen(chk):
     for pn, pt in PROXY_STEPS:
         chains.append(("proxy/" + pn, pt))
         chains.append(("proxy/" + pn, ".+(1)" + pt))
-    n = 120 if chk.tier == "quick" else 1200
+    n = 120 if chk.tier == "quick" else 2000
     for _ in range(n):
         k = rng.randint(1, 4)
         steps = []
